@@ -18,6 +18,7 @@ package bttest
 
 import (
 	"bytes"
+	"time"
 
 	btpb "cloud.google.com/go/bigtable/apiv2/bigtablepb"
 	"google.golang.org/grpc/codes"
@@ -84,4 +85,105 @@ func keysOutOfRange(start, end []byte) bool {
 	}
 	// Both keys have been set now check if start > end.
 	return bytes.Compare(start, end) > 0
+}
+
+// validateFilter checks the arguments of every node of a filter tree, whether or not
+// the node would be reached while filtering a particular row. filterRow only
+// notices an invalid filter when some cell gets to it, so a request against an
+// empty table, a short-circuited chain or an untaken condition branch would
+// otherwise accept it silently (or, for negative counts, panic).
+func validateFilter(f *btpb.RowFilter) error {
+	if f == nil {
+		return nil
+	}
+	switch f := f.Filter.(type) {
+	case *btpb.RowFilter_BlockAllFilter:
+		if !f.BlockAllFilter {
+			return status.Errorf(codes.InvalidArgument, "block_all_filter must be true if set")
+		}
+	case *btpb.RowFilter_PassAllFilter:
+		if !f.PassAllFilter {
+			return status.Errorf(codes.InvalidArgument, "pass_all_filter must be true if set")
+		}
+	case *btpb.RowFilter_Chain_:
+		if len(f.Chain.GetFilters()) < 2 {
+			return status.Errorf(codes.InvalidArgument, "Chain must contain at least two RowFilters")
+		}
+		for _, sub := range f.Chain.Filters {
+			if err := validateFilter(sub); err != nil {
+				return err
+			}
+		}
+	case *btpb.RowFilter_Interleave_:
+		if len(f.Interleave.GetFilters()) < 2 {
+			return status.Errorf(codes.InvalidArgument, "Interleave must contain at least two RowFilters")
+		}
+		for _, sub := range f.Interleave.Filters {
+			if err := validateFilter(sub); err != nil {
+				return err
+			}
+		}
+	case *btpb.RowFilter_Condition_:
+		if f.Condition == nil {
+			return status.Errorf(codes.InvalidArgument, "condition must be set")
+		}
+		for _, sub := range []*btpb.RowFilter{f.Condition.PredicateFilter, f.Condition.TrueFilter, f.Condition.FalseFilter} {
+			if err := validateFilter(sub); err != nil {
+				return err
+			}
+		}
+	case *btpb.RowFilter_RowKeyRegexFilter:
+		if _, err := newRegexp(f.RowKeyRegexFilter); err != nil {
+			return status.Errorf(codes.InvalidArgument, "Error in field 'rowkey_regex_filter' : %v", err)
+		}
+	case *btpb.RowFilter_FamilyNameRegexFilter:
+		if _, err := newRegexp([]byte(f.FamilyNameRegexFilter)); err != nil {
+			return status.Errorf(codes.InvalidArgument, "Error in field 'family_name_regex_filter' : %v", err)
+		}
+	case *btpb.RowFilter_ColumnQualifierRegexFilter:
+		if _, err := newRegexp(f.ColumnQualifierRegexFilter); err != nil {
+			return status.Errorf(codes.InvalidArgument, "Error in field 'column_qualifier_regex_filter' : %v", err)
+		}
+	case *btpb.RowFilter_ValueRegexFilter:
+		if _, err := newRegexp(f.ValueRegexFilter); err != nil {
+			return status.Errorf(codes.InvalidArgument, "Error in field 'value_regex_filter' : %v", err)
+		}
+	case *btpb.RowFilter_ColumnRangeFilter:
+		if f.ColumnRangeFilter == nil {
+			return status.Errorf(codes.InvalidArgument, "column_range_filter must be set")
+		}
+	case *btpb.RowFilter_ValueRangeFilter:
+		if f.ValueRangeFilter == nil {
+			return status.Errorf(codes.InvalidArgument, "value_range_filter must be set")
+		}
+	case *btpb.RowFilter_TimestampRangeFilter:
+		if f.TimestampRangeFilter == nil {
+			return status.Errorf(codes.InvalidArgument, "timestamp_range_filter must be set")
+		}
+		const milli = int64(time.Millisecond / time.Microsecond)
+		if f.TimestampRangeFilter.StartTimestampMicros%milli != 0 || f.TimestampRangeFilter.EndTimestampMicros%milli != 0 {
+			return status.Errorf(codes.InvalidArgument, "Error in field 'timestamp_range_filter'. Maximum precision allowed in filter is millisecond.")
+		}
+	case *btpb.RowFilter_CellsPerRowLimitFilter:
+		if f.CellsPerRowLimitFilter < 0 {
+			return status.Errorf(codes.InvalidArgument, "cells_per_row_limit_filter must not be negative")
+		}
+	case *btpb.RowFilter_CellsPerRowOffsetFilter:
+		if f.CellsPerRowOffsetFilter < 0 {
+			return status.Errorf(codes.InvalidArgument, "cells_per_row_offset_filter must not be negative")
+		}
+	case *btpb.RowFilter_CellsPerColumnLimitFilter:
+		if f.CellsPerColumnLimitFilter < 0 {
+			return status.Errorf(codes.InvalidArgument, "cells_per_column_limit_filter must not be negative")
+		}
+	case *btpb.RowFilter_RowSampleFilter:
+		if f.RowSampleFilter <= 0.0 || f.RowSampleFilter >= 1.0 {
+			return status.Error(codes.InvalidArgument, "row_sample_filter argument must be between 0.0 and 1.0")
+		}
+	case *btpb.RowFilter_ApplyLabelTransformer:
+		if !validLabelTransformer.MatchString(f.ApplyLabelTransformer) {
+			return status.Errorf(codes.InvalidArgument, `apply_label_transformer must match RE2([a-z0-9\-]+), but found %v`, f.ApplyLabelTransformer)
+		}
+	}
+	return nil
 }
